@@ -12,6 +12,8 @@ RE_ADD_RET = re.compile(r"^ptvcursor_add_ret_uint\(ptv, (\w+), (\w+), (ENC_\w+),
 RE_HELPER = re.compile(r"^(add_cstring|add_sized_cstring|add_string)\(ptv, &(\w+)\);$")
 RE_FOR = re.compile(r"^for \(guint32 (i\d+) = 0; \1 < (\w+)(?: && \1 < \(guint32\)(\w+))?(?: && ptvcursor_current_offset\(ptv\) < (offset_packet_end|compression_end))?; \+\+\1\) \{$")
 RE_WHILE = re.compile(r"^while \(ptvcursor_current_offset\(ptv\) < (offset_packet_end|compression_end)\) \{$")
+REM = "tvb_reported_length_remaining(ptvcursor_tvbuff(ptv), ptvcursor_current_offset(ptv))"  # bytes left in the buffer the cursor walks
+RE_LEN = re.compile(r"^len = (offset_packet_end|compression_end|tvb_reported_length\(compressed_tvb\)) - ptvcursor_current_offset\(ptv\);$")
 RE_SUBTREE = re.compile(r'^ptvcursor_add_text_with_subtree\(ptv, SUBTREE_UNDEFINED_LENGTH, ett_message, "([^"]*)"(?:, (\w+))?\);$')
 RE_CASE = re.compile(r"^case (\w+):$")
 RE_COND = re.compile(r"^(\w+) (==|!=|&) (\w+)$")
@@ -57,6 +59,9 @@ def parse_cond(text, line):
             continue
         if p == "len > 0":
             out.append(("len>0",))
+            continue
+        if p == f"{REM} > 0":
+            out.append(("rem>0",))
             continue
         if p == "compressed_tvb != NULL":
             out.append(("zlib-ok",))
@@ -125,8 +130,16 @@ def parse_block(L, until_break=False):
             body = parse_block(L)
             items.append({"k": "while", "end": m.group(1), "items": body, "line": ln})
             continue
-        if l == "len = offset_packet_end - ptvcursor_current_offset(ptv);":
-            items.append({"k": "len=", "line": ln})
+        m = RE_LEN.match(l)
+        if m or l == f"len = {REM};":
+            # which end the remaining length is measured to: the message's (offset_packet_end), the decompressed buffer's, or the end of
+            # whatever buffer the cursor walks (which for an uncompressed message may hold further messages)
+            end = "buffer_end" if not m else ("offset_packet_end" if m.group(1) == "offset_packet_end" else "compression_end")
+            items.append({"k": "len=", "end": end, "line": ln})
+            continue
+        if l == f"while ({REM} > 0) {{":
+            body = parse_block(L)
+            items.append({"k": "while", "end": "buffer_end", "items": body, "line": ln})
             continue
         if l.startswith("if (") and l.endswith(") {"):
             arms = [(parse_cond(l[4:-3], ln), parse_block(L))]
